@@ -200,9 +200,9 @@ type Cfg struct {
 	AllowAppendStruct bool // Append(*Struct) to arrays of structs (element has no parent link)
 	// (e) SetX(unfrozen v) while the record currently holds a frozen (shared) X: the setter
 	// clones the shared value without initialising the clone's parent links.
-	AllowCloneUnlinked bool
+	AllowCloneUnlinked                                    bool
 	ForceRevealArray, ForceRevealOneof, ForceRevealShared bool // focused runs: bias towards the formerly avoided sequences
-	ForceCloneUnlinked bool // focused runs only: always put an unfrozen value over a shared one
+	ForceCloneUnlinked                                    bool // focused runs only: always put an unfrozen value over a shared one
 	// (f) CopyFrom(src) where dst holds a frozen X and src an unfrozen one: dst gets a fresh
 	// zero X and the copy marks only differences from zero.
 	AllowCopyOverShared bool
@@ -249,6 +249,8 @@ type State struct {
 
 	unguarded bool
 	touched   map[string]bool
+	quiet     bool // the rest of this period stays without further calls (motif.go quietDeepTouch)
+	regrownAt []regrown
 	locked    []string
 	// frozenAt[path of dict-struct field] = the record may currently hold a frozen (shared)
 	// pointer there. Persistent across Writes.
@@ -273,6 +275,7 @@ type State struct {
 func (st *State) NextWrite() {
 	st.touched = nil
 	st.locked = nil
+	st.quiet = false
 }
 
 func (st *State) TakeLog() []*Call {
